@@ -454,6 +454,69 @@ def opRead (args impl : List String) : Except String (String × String) := do
     return (model, verdict)
   | _ => throw "bad api.read args"
 
+
+/-! ### api.new / api.bv / api.setbk / api.root -/
+
+partial def boolSeries : Ty → Bool
+  | .vector e _ | .list e _ => e == .bool || boolSeries e
+  | .container fs => fs.any boolSeries
+  | .union _ fs => fs.any boolSeries
+  | _ => false
+
+def obsView (t : Ty) (n : Node) : R String :=
+  match serializeView t n with
+  | .ok bs => .ok s!"{hex (n.root hsha)} {xhex bs}"
+  | .error .panic => .error .panic
+  | .error _ => .ok s!"{hex (n.root hsha)} ser-err"
+
+def specObs (t : Ty) (v : Val) : String := s!"{hex (htr hsha t v)} {xhex (serialize t v)}"
+
+def opNew (args impl : List String) : Except String (String × String) := do
+  let (t, _) ← runP parseTy args
+  let model := lineOf (do
+    let n ← newBacking hsha t
+    let o ← obsView t n
+    pure s!"ok {o} 1")
+  if boolSeries t then return (model, "ok")
+  let spec := s!"ok {specObs t (defaultVal t)} 1"
+  return (model, verdictEq "new-is-not-the-default-value" (" ".intercalate impl) spec)
+
+def opBv (args impl : List String) : Except String (String × String) := do
+  match args with
+  | route :: rest =>
+    let ((t, v), _) ← runP (do let t ← parseTy; let v ← val; pure (t, v)) rest
+    let r ← viewByRoute route t v
+    let isBasicList := match t with | .list e _ => isBasicElem e | _ => false
+    let model := lineOf (do
+      let n ← r
+      let c ← backedCopy t n
+      let oc ← obsView t c
+      pure (s!"ok {oc} {oc} {hex (n.root hsha)} 1" ++ (if isBasicList then s!" {hex (n.root hsha)}" else "")))
+    if !(hasType t v) then return (model, "FAIL:generator-produced-ill-typed-value")
+    if boolSeries t then return (model, "ok")
+    let o := specObs t v
+    let rt := hex (htr hsha t v)
+    let spec := s!"ok {o} {o} {rt} 1" ++ (if isBasicList then s!" {rt}" else "")
+    return (model, verdictEq "backed-view-copy" (" ".intercalate impl) spec)
+  | _ => throw "bad api.bv args"
+
+def opSetbk (args impl : List String) : Except String (String × String) := do
+  let ((t, v), _) ← runP (do let t ← parseTy; let v ← val; pure (t, v)) args
+  let (e, v') := basicSetBacking v (.leaf z0)
+  let model := (if e.isSome then "err" else "ok") ++ " " ++ showVal v'
+  if !(hasType t v) then return (model, "FAIL:generator-produced-ill-typed-value")
+  -- a basic value view has no backing to replace: refused, value unchanged
+  return (model, verdictEq "basic-set-backing" (" ".intercalate impl) s!"err {showVal v}")
+
+def opRoot (args impl : List String) : Except String (String × String) := do
+  let (r, _) ← runP hexTok args
+  if r.length ≠ 32 then throw "api.root needs 32 bytes"
+  let model := lineOf (do
+    let n ← rootValueByteLength
+    pure s!"ok {rootByteLength} {n} {hex (rootHashTreeRoot hsha r)} {xhex (rootSerialize r)} {strHex "Root"}")
+  let spec := ["ok", "32", "32", hex (htr hsha (.bytesN 32) (.bytes r)), xhex (serialize (.bytesN 32) (.bytes r)), "*"]
+  return (model, verdictToks "root-as-value" impl spec)
+
 def handle (name : String) (args impl : List String) : Option (Except String (String × String)) :=
   match name with
   | "api.td" => some (opTd args impl)
@@ -466,6 +529,10 @@ def handle (name : String) (args impl : List String) : Option (Except String (St
   | "api.sb32" => some (opSb32 args impl)
   | "api.must" => some (opMust args impl)
   | "api.read" => some (opRead args impl)
+  | "api.new" => some (opNew args impl)
+  | "api.bv" => some (opBv args impl)
+  | "api.setbk" => some (opSetbk args impl)
+  | "api.root" => some (opRoot args impl)
   | _ => none
 
 end Driver.OpsApi
